@@ -353,7 +353,7 @@ def run_guards(ctx: Ctx, guards: list[Guard]) -> list[Ob]:
 
 
 # ------------------------------------------------------------------------------- R8m: membership guards
-def scope_membership(ctx: Ctx, fq: str, label: str) -> list[Ob]:
+def scope_membership(ctx: Ctx, fq: str, label: str, within: str | None = None) -> list[Ob]:
     """R8m -- 'variables outside the scope are rejected' is a *membership* test: the condition of the
     refusing guard derives (through local definitions) from the circuit's scope used as a set --
     difference / intersection / subset comparison / ``in`` -- not merely from its largest id.  A
@@ -363,15 +363,41 @@ def scope_membership(ctx: Ctx, fq: str, label: str) -> list[Ob]:
     f = ctx.repo.func(fq)
     ld = LocalDefs(f.node)
     out: list[Ob] = []
-    guards = [n for n in walk_no_nested(f.node) if isinstance(n, ast.If) and any(isinstance(b, ast.Raise) for b in n.body)]
+    guards = [n for n in walk_no_nested(f.node) if isinstance(n, ast.If) and (any(isinstance(b, ast.Raise) for b in n.body) or any(isinstance(b, ast.Raise) for b in n.orelse))]
+    if within is not None:
+        # only the guards under `if <within>` (e.g. the mask-tensor path of a query)
+        keep = []
+        for top in walk_no_nested(f.node):
+            if isinstance(top, ast.If) and within in unparse(top.test):
+                keep += [g for g in guards if any(g is x for x in ast.walk(top)) and g is not top]
+        guards = keep
+    # stores into a container (`m[list(scope)] = True`) are part of what a name holds
+    stores: dict[str, list[ast.AST]] = {}
+    for n in walk_no_nested(f.node):
+        if isinstance(n, ast.Assign):
+            for t in n.targets:
+                if isinstance(t, ast.Subscript) and isinstance(t.value, ast.Name):
+                    stores.setdefault(t.value.id, []).extend([t.slice, n.value])
+
+    def collection_use(e: ast.AST, under_bound: bool = False) -> bool:
+        """`.scope` read other than through max / min / len (its members, not only a bound)"""
+        if isinstance(e, ast.Call) and (dotted(e.func) or "") in ("max", "min", "len"):
+            under_bound = True
+        if isinstance(e, ast.Attribute) and e.attr == "scope" and not under_bound:
+            return True
+        return any(collection_use(c, under_bound) for c in ast.iter_child_nodes(e))
+
     decided = False
+    results: list[tuple[bool, ast.If, str]] = []
     for g in guards:
         exprs = ld.expand(g.test)
+        extra = [x for e in exprs for nm in ast.walk(e) if isinstance(nm, ast.Name) for x in stores.get(nm.id, [])]
+        exprs = list(exprs) + extra + [y for x in extra for y in ld.expand(x)]
         txt_all = " ".join(unparse(e) for e in exprs)
         if ".scope" not in txt_all:
             continue
         decided = True
-        set_use = False
+        set_use = any(collection_use(e) for e in extra)
         for e in exprs:
             for x in ast.walk(e):
                 if isinstance(x, ast.BinOp) and isinstance(x.op, (ast.Sub, ast.BitAnd, ast.BitOr, ast.BitXor)) and (".scope" in unparse(x.left) or ".scope" in unparse(x.right)):
@@ -385,9 +411,14 @@ def scope_membership(ctx: Ctx, fq: str, label: str) -> list[Ob]:
                     if ".scope" in unparse(x):
                         set_use = True
         site = f"{f.module.relpath}:{g.lineno}"
-        if set_use:
-            out.append(ok("R8m", fq, label, "the refusing condition derives from the scope used as a set", site))
-        else:
+        results.append((set_use, g, site))
+    # one refusal by membership is what the clause asks for: further bound checks (the width of a mask)
+    # next to it are not its violation
+    if any(r[0] for r in results):
+        g, site = next((r[1], r[2]) for r in results if r[0])
+        out.append(ok("R8m", fq, label, "a refusing condition derives from the scope's members (used as a set / a collection of ids)", site))
+    for set_use, g, site in results:
+        if not any(r[0] for r in results):
             out.append(viol("R8m", fq, label, f"the refusing condition `{unparse(g.test)[:50]}` derives from the scope only through a bound (max / len), not through a set operation: ids in a gap of the scope pass the check", site))
     if not decided:
         out.append(unres("R8m", fq, label, "no refusing guard whose condition derives from a scope", f.loc))
